@@ -107,6 +107,10 @@ func startHangWatchdog() {
 			time.Sleep(time.Second)
 			if s := runStarted.Load(); s != 0 && time.Since(time.Unix(0, s)) > lim {
 				fmt.Fprintf(os.Stderr, "HANG-WATCHDOG: a simulated run did not return within %v\n", lim)
+				// where is it stuck: the stacks of all goroutines (the engine's is the one below core.SafeRun)
+				buf := make([]byte, 1<<18)
+				buf = buf[:runtime.Stack(buf, true)]
+				os.Stderr.Write(buf)
 				os.Exit(3)
 			}
 		}
@@ -229,6 +233,39 @@ func fatalKind(stderr string) string {
 	return ""
 }
 
+// hangSig extracts a stable signature from the goroutine dump printed by the hang watchdog: the innermost frames of the
+// goroutine that runs the engine (the one started by core.SafeRun).
+func hangSig(stderr string) string {
+	i := strings.Index(stderr, "HANG-WATCHDOG:")
+	if i < 0 {
+		return ""
+	}
+	for _, blk := range strings.Split(stderr[i:], "\n\n") {
+		if !strings.Contains(blk, "core.SafeRun.func") || !strings.HasPrefix(strings.TrimSpace(blk), "goroutine ") {
+			continue
+		}
+		var fns []string
+		for _, l := range strings.Split(blk, "\n")[1:] {
+			if strings.HasPrefix(l, "\t") || l == "" {
+				continue
+			}
+			if j := strings.LastIndex(l, "("); j > 0 {
+				l = l[:j]
+			}
+			l = strings.TrimPrefix(l, "github.com/dop251/goja.")
+			if strings.HasPrefix(l, "runtime.") || strings.HasPrefix(l, "internal/") {
+				continue
+			}
+			fns = append(fns, l)
+			if len(fns) == 3 {
+				break
+			}
+		}
+		return "blocked in " + strings.Join(fns, " <- ")
+	}
+	return ""
+}
+
 // raceSig extracts a stable signature from a race report: the function names of the top frames of both accesses.
 func raceSig(stderr string) string {
 	var fns []string
@@ -252,6 +289,11 @@ func raceSig(stderr string) string {
 	return strings.Join(fns, "|")
 }
 
+// execHangS, when set, is the hang limit (seconds) of the child processes started by execTape. Only used while a hang
+// is being minimised (a hanging run normally takes milliseconds, so a short limit discriminates well); the minimised tape
+// is confirmed once more under the normal limit.
+var execHangS string
+
 type tailBuf struct {
 	mu  sync.Mutex
 	buf []byte
@@ -274,13 +316,20 @@ func execTape(prop, tier string, w, s []uint32) (rule string, v *Violation, dige
 	in, _ := json.Marshal(&ReplayFile{W: w, S: s})
 	cmd := exec.Command(os.Args[0], "exec", "--prop", prop, "--tier", tier)
 	cmd.Env = append(os.Environ(), "GORACE=halt_on_error=1 exitcode=66")
+	if execHangS != "" {
+		cmd.Env = append(cmd.Env, "VERIF_HANG_S="+execHangS)
+	}
 	cmd.Stdin = bytes.NewReader(in)
 	var so, se bytes.Buffer
 	cmd.Stdout, cmd.Stderr = &so, &se
 	runErr := cmd.Run()
 	stderr = se.String()
 	if k := fatalKind(stderr); k != "" {
-		return k, &Violation{Rule: k, Msg: k + " " + raceSig(stderr), Sig: k + " " + raceSig(stderr)}, "", stderr, nil
+		sig := raceSig(stderr)
+		if k == "fatal:hang" {
+			sig = hangSig(stderr)
+		}
+		return k, &Violation{Rule: k, Msg: k + " " + sig, Sig: k + " " + sig}, "", stderr, nil
 	}
 	if runErr != nil {
 		if ee, ok := runErr.(*exec.ExitError); !ok || ee.ExitCode() != 1 {
@@ -508,7 +557,11 @@ func RunMain(prop, tier string, seed uint64) int {
 				infra = true
 				continue
 			}
-			fatals = append(fatals, fatalRun{idx: r.lastIdx, kind: k, sig: k + " " + raceSig(r.stderr), stderr: r.stderr})
+			fsig := raceSig(r.stderr)
+			if k == "fatal:hang" {
+				fsig = hangSig(r.stderr)
+			}
+			fatals = append(fatals, fatalRun{idx: r.lastIdx, kind: k, sig: k + " " + fsig, stderr: r.stderr})
 		}
 	}
 	// Fatal runs: one representative per distinct diagnostic signature is reproduced in a fresh process and minimised
@@ -532,12 +585,19 @@ func RunMain(prop, tier string, seed uint64) int {
 		}
 		budget := 45 * time.Second
 		if fr.kind == "fatal:hang" {
-			budget = 0 // every re-execution costs the hang limit
+			budget = 100 * time.Second // every re-execution of a still hanging tape costs the (shortened) hang limit
+			execHangS = "4"
 		}
 		bw, bs, n := Shrink(w, s, fr.kind, budget, 120, func(cw, cs []uint32) string {
 			rl, _, _, _, _ := execTape(prop, tier, cw, cs)
 			return rl
 		})
+		execHangS = ""
+		if fr.kind == "fatal:hang" {
+			if rl, _, _, _, _ := execTape(prop, tier, bw, bs); rl != fr.kind {
+				bw, bs, n = w, s, 0 // the minimised tape does not hang under the normal limit: keep the original
+			}
+		}
 		rf.W, rf.S, rf.ShrinkRuns = bw, bs, n
 		if _, v, _, se2, _ := execTape(prop, tier, bw, bs); v != nil {
 			rf.Violation = v
